@@ -1,6 +1,8 @@
 import Morlock.Proofs.SargonFlt
 import Morlock.Proofs.SargonSound
 import Morlock.Proofs.SargonDet
+import Morlock.Proofs.SargonSpec
+import Morlock.Props.C13
 import Morlock.Proofs.MirrorModel
 import Morlock.Proofs.PromoModel
 import Morlock.Proofs.GenExample
@@ -30,6 +32,10 @@ Subject: `Model/Sargon.lean` + `Model/EvalPins.lean`, the transcription of `eval
   (`exchange_independent_of_tie_order_without_stacks`), the exchange value with them (`exchange_tie_order_matters`);
   and because ties are broken by square numbers, **the evaluation is not colour-blind**
   (`points_not_colour_blind`: a position and its colour-swapped mirror image evaluate to 36.15 and 72.15).
+* §6 `findPins_eq_specPins`, `findAttackers_fronts_eq_specDirect`: the executable references of `Spec/Pins.lean` (printed as the
+  `## spec` side of the `sargon` op) are what `FindPins` / the fronts of `FindAttackers` compute.
+* §7 `onePlyIfChecked_of_not_inCheck`, `onePlyIfChecked_of_inCheck`, `onePlyIfChecked_score`, `onePlyIfChecked_clip`:
+  `OnePlyIfChecked.QuietSearch` is the static leaf out of check and `Model.alphabeta` at depth 1 in check; C13 applies.
 -/
 namespace Morlock.Props.C20Sargon
 open Morlock Morlock.Model Morlock.Model.Sargon Morlock.Proofs Morlock.Proofs.Sargon Morlock.Proofs.Gen
@@ -378,5 +384,85 @@ theorem material_ptschk_depends_on_square_order :
 set_option maxRecDepth 100000 in
 /-- Kiwipete evaluates to `0x41a0b852` (20.09), as the implementation says (first line of the stream). -/
 example : pointsBits kiwiPos .white = some 0x41a0b852 := by decide +kernel
+
+/-! ## 6. The executable reference (`Spec/Pins.lean`), printed as the `## spec` side of the `sargon` op -/
+
+/-- **`findPins_eq_specPins`.** `FindPins(pos, side, piece)` returns exactly the pins the reference finds by walking the eight
+    rays of the mailbox board from every `piece` of `side` (first man seen: own; with it lifted, first man seen: enemy queen,
+    or rook on orthogonals / bishop on diagonals): the same set of `(attacker, pinned, target)`. -/
+theorem findPins_eq_specPins {p : Position} {b : Proofs.Board} (h : Rep p b) (turn side : Color) {piece : Piece} (hk : piece ≠ .none)
+    (a f t : Nat) :
+    ({ attacker := a, pinned := f, target := t } : Pin) ∈ findPins p side piece ↔
+      (a, f, t) ∈ Spec.specPins (abs p turn) (absColor side) (kindOf piece) :=
+  Proofs.Sargon.findPins_eq_specPins h turn side hk a f t
+
+/-- **`findAttackers_fronts_eq_specDirect`.** The squares heading the stacks of `FindAttackers(pos, pins, sq, side)` are exactly
+    the reference's direct attackers: the men of `side` that attack `sq` by the rules and that `pins` does not pin away. -/
+theorem findAttackers_fronts_eq_specDirect {p : Position} {b : Proofs.Board} (h : Rep p b) (turn : Color) (pins : Pins) {sq : Nat}
+    (hsq : sq < 64) (side : Color) {l : List Attacker} (hl : findAttackers p pins sq side = .ok l) (s : Nat) :
+    (∃ a ∈ l, a.front.square = s) ↔
+      s ∈ Spec.specDirect (abs p turn) (fun s => isPinnedFor pins s sq) sq (absColor side) :=
+  Proofs.Sargon.findAttackers_fronts_eq_specDirect h turn pins hsq side hl s
+
+example : Spec.specPins (abs pinPos .white) .white .king = [(51, 27, 3)] := by decide +kernel
+
+/-! ## 7. `OnePlyIfChecked.QuietSearch` -/
+
+section QuietSearch
+open Morlock.Model.Score Morlock.Proofs.AB
+open Morlock.Spec (rank)
+variable {P : Type}
+
+/-- Not in check: `OnePlyIfChecked` is the static leaf of `Model.Search` (`search.Leaf.QuietSearch`). -/
+theorem onePlyIfChecked_of_not_inCheck (g : Game P) (p : P) (a b : Score) (st : SState) (h : g.inCheck p = false) :
+    onePlyIfChecked g p a b st = quietSearch g .static p a b st := by
+  simp [onePlyIfChecked, quietSearch, h]
+
+/-- In check: `OnePlyIfChecked` is `AlphaBeta.Search` of `Model.Search` at depth 1 with the static leaf, full exploration, the
+    caller's window and state; a halted search gives `(0 nodes, InvalidScore)`. -/
+theorem onePlyIfChecked_of_inCheck (g : Game P) (p : P) (a b : Score) (st : SState) (h : g.inCheck p = true) :
+    onePlyIfChecked g p a b st =
+      match alphaBetaSearch g fullExploration .static p 1 a b st with
+      | (none, st') => (invalidScore, { st' with nodes := st.nodes })
+      | (some r, st') => (r.score, { st' with nodes := st.nodes + r.nodes }) := by
+  simp only [onePlyIfChecked, h, Bool.not_true, Bool.false_eq_true, if_false]
+  rcases alphaBetaSearch g fullExploration .static p 1 a b st with ⟨_ | r, st'⟩ <;> rfl
+
+/-- … and, one level further down, the score is that of `runAlphaBeta.search` (`Model.alphabeta`) at depth 1 on the window
+    `[a or −∞, b or +∞]`, unless the final poll reports cancellation. -/
+theorem onePlyIfChecked_score (g : Game P) (p : P) (a b : Score) (st : SState) (h : g.inCheck p = true) :
+    (onePlyIfChecked g p a b st).1 =
+      if (poll (alphabeta g fullExploration .static (g.ply p) 1 p (if a.isInvalid then negInfScore else a)
+            (if b.isInvalid then infScore else b) { st with nodes := 0 }).2.2).1
+      then invalidScore
+      else (alphabeta g fullExploration .static (g.ply p) 1 p (if a.isInvalid then negInfScore else a)
+            (if b.isInvalid then infScore else b) { st with nodes := 0 }).1 := by
+  rw [onePlyIfChecked_of_inCheck g p a b st h]
+  simp only [alphaBetaSearch]
+  cases hc : (poll (alphabeta g fullExploration .static (g.ply p) 1 p (if a.isInvalid then negInfScore else a)
+      (if b.isInvalid then infScore else b) { st with nodes := 0 }).2.2).1 <;> simp_all
+
+/-- **C13 applies.** In check, without table and without cancellation, for a proper window of valid scores of grade 1:
+    the score `OnePlyIfChecked.QuietSearch` returns is the one-ply negamax value `V … 1 p` over all legal moves with the
+    static evaluation at the leaves, clipped to the window. -/
+theorem onePlyIfChecked_clip (g : Game P) (hev : EvalOk g) (p : P) (a b : Score) (st : SState)
+    (h : g.inCheck p = true) (htt : st.tt.slots.size = 0) (hc : st.cancelAt = none)
+    (ha : okN 1 (if a.isInvalid then negInfScore else a)) (hb : okN 1 (if b.isInvalid then infScore else b))
+    (hab : rank (if a.isInvalid then negInfScore else a) < rank (if b.isInvalid then infScore else b)) :
+    Clip (rank (if a.isInvalid then negInfScore else a)) (rank (if b.isInvalid then infScore else b))
+      (rank (V g fullExploration .static (g.ply p) 1 p)) (rank (onePlyIfChecked g p a b st).1) := by
+  have hst : ({ st with nodes := 0 } : SState).tt.slots.size = 0 ∧ ({ st with nodes := 0 } : SState).cancelAt = none := ⟨htt, hc⟩
+  have hany := Props.C13.alphabeta_any_window g fullExploration .static (g.ply p) hev 0 1 (Nat.le_refl _) (by decide) p _ _
+    { st with nodes := 0 } hst.1 hst.2 (by simpa using ha) (by simpa using hb)
+  have hclip := Props.C13.alphabeta_clip g fullExploration .static (g.ply p) hev 0 1 (Nat.le_refl _) (by decide) p _ _
+    { st with nodes := 0 } hst.1 hst.2 (by simpa using ha) (by simpa using hb) hab
+  rw [onePlyIfChecked_score g p a b st h]
+  have hpoll : (poll (alphabeta g fullExploration .static (g.ply p) 1 p (if a.isInvalid then negInfScore else a)
+      (if b.isInvalid then infScore else b) { st with nodes := 0 }).2.2).1 = false := by
+    simp [poll, hany.2.2.2.2.2]
+  rw [hpoll]
+  exact hclip
+
+end QuietSearch
 
 end Morlock.Props.C20Sargon
